@@ -3,6 +3,7 @@
 package drive
 
 import (
+	"syscall"
 	"github.com/Factom-Asset-Tokens/factom"
 	"database/sql"
 	"bytes"
@@ -161,6 +162,10 @@ func Open(path string, fk *fake.Node, hooks *sqlw.Hooks, wal bool) (*Daemon, err
 	conf.Set(config.SQLDBWalMode, wal)
 	n, err := node.NewPegnetd(context.Background(), conf)
 	if err != nil {
+		// A start-up that is refused returns no node, and the database handle it opened is lost (a real process exits at this
+		// point). An explorer that runs tens of thousands of refused start-ups in one process would run out of file
+		// descriptors: close the descriptors of this database file that nobody can reach any more.
+		closeLeakedFDs(path + ".v4")
 		return nil, err
 	}
 	n.Pegnet.DB.Close()
@@ -169,6 +174,23 @@ func Open(path string, fk *fake.Node, hooks *sqlw.Hooks, wal bool) (*Daemon, err
 	n.Pegnet.DB = db.DB
 	n.FactomClient.Factomd.Transport = fk
 	return &Daemon{Path: path, Node: n, DB: db, Fake: fk, WAL: wal}, nil
+}
+
+// closeLeakedFDs closes every descriptor of this process that refers to the database file at prefix (or its journal files).
+func closeLeakedFDs(prefix string) {
+	ents, err := os.ReadDir("/proc/self/fd")
+	if err != nil {
+		return
+	}
+	for _, e := range ents {
+		t, err := os.Readlink("/proc/self/fd/" + e.Name())
+		if err != nil || !strings.HasPrefix(t, prefix) {
+			continue
+		}
+		if fd, err := strconv.Atoi(e.Name()); err == nil {
+			syscall.Close(fd)
+		}
+	}
 }
 
 // The wrapped connection must be configured like the one the code under test opens for itself (journal mode, synchronous,
@@ -449,6 +471,12 @@ func Scratch(prefix string) string {
 	base := "/dev/shm"
 	if st, err := os.Stat(base); err != nil || !st.IsDir() {
 		base = os.TempDir()
+	}
+	// workers of one check share a root that the parent removes when they are gone, however they ended
+	if root := os.Getenv("PVMC_SCRATCH_ROOT"); root != "" {
+		if os.MkdirAll(root, 0777) == nil {
+			base = root
+		}
 	}
 	dir, err := ioutil.TempDir(base, "pvmc."+prefix+".")
 	if err != nil {
